@@ -135,5 +135,19 @@ CLAIMS["C17"] = {
     "technique": "specialisation of the superclass/method loops + loop-carried dependence + memo-key completeness",
     "ref": "DESIGN.md section 5 C17",
 }
+CLAIMS["C03"] = {
+    "text": "Decides, for every package shape, the structural conditions of 'exactly once': the walker's child selection (evaluated "
+            "over all 28 statement classes of the installed mypy) contains every declaration-bearing class at module, class and "
+            "constructor level; wrapped definitions (Decorator, OverloadedFuncDef) unwrap to classes that have a handler for every "
+            "class mypy declares possible; every leave handler adds the element to the API store and to exactly one owner for every "
+            "parent kind the walker can produce (stack-shape analysis); each model collection is emitted by exactly one loop and "
+            "each public element by exactly one emitter call whose text is appended; a re-exported declaration is appended to the "
+            "re-export list exactly when its own module drops it and is rendered once there. Known findings: definitions inside "
+            "compound statements and enums nested in classes are dropped. Not decided: that the two shortest-re-export "
+            "computations pick the same target (string matching), name collisions after conversion.",
+    "note": TRUST,
+    "technique": "dispatch totality against the library model + stack-shape analysis + per-iteration effect analysis of emission loops",
+    "ref": "DESIGN.md section 5 C03",
+}
 
 NOT_APPLICABLE = {}
